@@ -144,6 +144,10 @@ def parseCall : List String → Option Mux.Op
   | ["dgrecv"] => some .recvDgram
   | ["bindnext"] => some .bindNext
   | ["cancelopen", req] => req.toNat?.map .cancelOpen
+  -- a frame of the peer that is readable in the same poll of the task as the calls of the batch,
+  -- and the drop of the `Multiplexor` among them (both are plain `opStep`s)
+  | ["deliver", "bin", h] => (parseIn ["bin", h]).map .deliver
+  | ["dropmux"] => some .dropMux
   | _ => none
 
 /-- Split a token list at the separator `;`. -/
